@@ -130,3 +130,15 @@ check("C12", "fault_enumeration",
       "recv and try_recv (select/router observers: C06/C07).",
       "TLC exhaustive model checking with crash action + gated replay killing a real process at each chosen boundary",
       "DESIGN.md 3.3, 6 (C12)")
+check("C06", "model_checking",
+      "ReceiverSet.tla (edge-triggered epoll ready list, events capacity, drain-until-EWOULDBLOCK loop, blocking follow-up "
+      "reads, registration, end-of-channel handling, EINTR) is checked exhaustively by TLC for up to 4 members x up to 2 "
+      "messages (1 or 2 packets) x Cap in {1,2} x members added before/during/after traffic x sender drops anywhere x EINTR "
+      "anywhere: EachOnceInOrder, ClosedOnlyWhenDisconnected, UniqueIds, the no-lost-wake-up invariant ETInv and the "
+      "liveness Completes. TLC random walks are executed with the sender threads and the selecting thread held at their "
+      "system-call hooks (EINTR by a real signal into epoll_wait); per member the events must be exactly its messages in "
+      "order then one closed event, ids unique, and select must not stay asleep while the model has an event pending.",
+      "Premise K10; mutants DrainOne and LevelBlindAdd violate ETInv in the model; cross-member order inside one batch "
+      "follows the kernel and only matters for 'matched' accounting; macOS/Windows/in-process sets unbound here.",
+      "TLC exhaustive model checking of ReceiverSet.tla + gated replay of TLC-generated interleavings",
+      "DESIGN.md 3.4, 6 (C06)")
